@@ -135,6 +135,10 @@ def worker(args):
         a2, b2 = twins(env, fixture, small[:-1], small[-1])
         d2 = compare(env, a2, b2) or d
         sig = '%s|%s|%s|%s|%s' % (rel, sx.kinds(small[:-1]) or '-', opsig(op), exc, ' '.join(d2))
+        if any(o[0] == 'objflush' for o in small[:-1]) and all(x_.startswith('counts[') or (x_.startswith('writes[+UPDATE') and ' -UPDATE' in x_) for x_ in d2):
+            # one defect, one name (the C10 known finding): obj.flush() of ONE object leaves the pending bookkeeping of its partners'
+            # collections (cached count, pending removals) behind until the session flush; a failing call and its undo then meet that state
+            sig = 'obj.flush()-earlier-in-the-session|%s' % ('counts' if all(x_.startswith('counts[') for x_ in d2) else 'writes')
         presigs[pre] = sig
         sub.violation(sig, dict(model=name, fixture=fixture, history=small, differs=d2,
                                 view_without_call=a2.obs[-2], view_after_failed_call=b2.obs[-2],
